@@ -63,10 +63,32 @@ impl<W: Write, BufferType: SliceWrapperMut<u8>, Alloc: BrotliAlloc> Write
     for CompressorWriterCustomAlloc<W, BufferType, Alloc>
 {
     fn write(&mut self, buf: &[u8]) -> Result<usize, Error> {
-        self.0.write(buf)
+        let ret = self.0.write(buf);
+        if ret.is_err() {
+            self.rearm();
+        }
+        ret
     }
     fn flush(&mut self) -> Result<(), Error> {
-        self.0.flush()
+        let ret = self.0.flush();
+        if ret.is_err() {
+            self.rearm();
+        }
+        ret
+    }
+}
+
+#[cfg(feature = "std")]
+impl<W: Write, BufferType: SliceWrapperMut<u8>, Alloc: BrotliAlloc>
+    CompressorWriterCustomAlloc<W, BufferType, Alloc>
+{
+    // the error values are handed out by move: restock them after every failure, otherwise the
+    // third zero-length write of the wrapped stream would be swallowed
+    fn rearm(&mut self) {
+        self.0.rearm_errors(
+            Error::new(ErrorKind::InvalidData, "Invalid Data"),
+            Error::new(ErrorKind::WriteZero, "No room in output."),
+        );
     }
 }
 
@@ -238,6 +260,20 @@ impl<ErrType, W: CustomWrite<ErrType>, BufferType: SliceWrapperMut<u8>, Alloc: B
     }
     pub fn get_mut(&mut self) -> &mut W {
         self.output.as_mut().unwrap()
+    }
+    /// Error values are handed out by move; call this after `write`/`flush` returned `Err`
+    /// if the writer is going to be used again.
+    pub fn rearm_errors(
+        &mut self,
+        invalid_data_error_type: ErrType,
+        error_if_zero_bytes_written: ErrType,
+    ) {
+        if self.error_if_invalid_data.is_none() {
+            self.error_if_invalid_data = Some(invalid_data_error_type);
+        }
+        if self.error_if_zero_bytes_written.is_none() {
+            self.error_if_zero_bytes_written = Some(error_if_zero_bytes_written);
+        }
     }
     pub fn into_inner(mut self) -> W {
         match self.flush_or_close(BrotliEncoderOperation::BROTLI_OPERATION_FINISH) {
